@@ -7,6 +7,7 @@ import Sfv.Driver.Nav
 import Sfv.Driver.Io
 import Sfv.Driver.CryptoIo
 import Sfv.Driver.AbiIo
+import Sfv.Model.Image
 import Sfv.Model.Container
 import Sfv.Model.Evolve
 import Sfv.Model.SchemaDiff
@@ -171,6 +172,27 @@ def step (st : DState) (line : String) : DState × String :=
           | .unencodable => "(unenc)"
         (st, "(ok (" ++ " ".intercalate (args.map (xfer tyI tyJ)) ++ ") (" ++ " ".intercalate (rets.map (xfer tyJ tyI)) ++ "))")
       | _, _, _, _, _, _ => (st, "(bad-op abicall)")
+    | .list [.atom "smem", .atom sh, .atom name, .atom ver, v, .atom memHex] =>
+      -- does the memory of a value agree with the image its (real) schema prescribes, where the schema claims
+      -- a complete layout (it is layout compatible with itself)
+      match parseHex sh, st.env.lookup name, ver.toNat?, parseV v, parseHex memHex with
+      | some sb, some ty, some ver, some v, some mem =>
+        match decSchema st.cfg 2 (sb.length + 1) sb with
+        | .ok (s, _) =>
+          if !layoutCompatible s s then (st, "(ok no-layout)")
+          else
+            match proj ty ver v with
+            | .ok wv =>
+              match imgAt 0 s wv with
+              | some img =>
+                match img.find? (fun (a, b) => mem[a]? != some b) with
+                | none => (st, if schemaSize s == some mem.length then "(ok holds)" else "(ok size-mismatch)")
+                | some (a, b) => (st, "(ok mismatch at " ++ toString a ++ " schema-says " ++ toString b.toNat ++ " memory-has "
+                    ++ (match mem[a]? with | some m => toString m.toNat | none => "nothing") ++ ")")
+              | none => (st, "(ok image-undetermined)")
+            | .error _ => (st, "(ok unprojectable)")
+        | .error _ => (st, "(bad-op smem-undecodable)")
+      | _, _, _, _, _ => (st, "(bad-op smem)")
     | .list [.atom "ext", .atom writer, .atom reader, .atom ver] =>
       -- hypothesis of c03_upgrade / c18_downgrade: everything the writer's grammar at `ver` encodes is
       -- encoded identically by the reader's grammar at `ver`
